@@ -18,12 +18,31 @@ type IV int
 
 func (a IV) Less(b interface{}) bool { return a < b.(IV) }
 
+// SV is a struct element: the key orders, the other fields are zero for some keys.
+type SV struct {
+	K   int
+	Tag string
+	N   int
+}
+
+func (a SV) Less(b interface{}) bool { return a.K < b.(SV).K }
+
+func sv(v int) SV {
+	e := SV{K: v}
+	if v%2 == 1 {
+		e.Tag = fmt.Sprint("t", v)
+	}
+	e.N = v % 3
+	return e
+}
+
 // Warm registers the element type with gob once, outside any exploration, so
 // that every explored execution takes the same path through morass.register.
 func Warm() {
-	m, err := morass.New(IV(0), "warm", "", 1, false)
-	if err == nil {
-		m.CleanUp()
+	for _, proto := range []interface{}{IV(0), SV{}} {
+		if m, err := morass.New(proto, "warm", "", 1, false); err == nil {
+			m.CleanUp()
+		}
 	}
 }
 
@@ -44,6 +63,8 @@ type Scenario struct {
 	Cycles     []int
 	Faults     bool // C13: errors are expected when a fault was injected
 	Continue   bool // after a failing call the cycle is abandoned, the sorter cleared and the next cycle run (C13: a failure in a later cycle must surface as well)
+	Abandon    bool // the first cycle is given up after its pushes: Clear without Finalise or Pull, then the next cycle
+	Struct     bool // struct elements some of whose fields are zero for some values (an encoding that omits zero fields)
 	AutoClear  bool // the sorter clears itself when a drain reaches io.EOF; no explicit Clear between cycles
 	Residue    bool // C13: the sorter lives in a directory of its own; after a last cycle that was drained to io.EOF under AutoClear no run file may be left, whatever failed before
 	After      int  // > 0: another sorter with this (larger) chunk size is used for one in-memory cycle and cleaned up first
@@ -70,6 +91,12 @@ func (s Scenario) Name() string {
 	}
 	if s.Residue {
 		after += "-residue"
+	}
+	if s.Abandon {
+		after += "-abandon"
+	}
+	if s.Struct {
+		after += "-struct"
 	}
 	return fmt.Sprintf("sort-%s-chunk%d-push%s%s", mode, s.Chunk, strings.Join(cs, "+"), after)
 }
@@ -137,7 +164,11 @@ func (s Scenario) Mk() vrt.Run {
 			parent, _ = os.MkdirTemp("", "mdrv-residue")
 			defer os.RemoveAll(parent)
 		}
-		m, err := morass.New(IV(0), "vrt", parent, s.Chunk, s.Concurrent)
+		var proto interface{} = IV(0)
+		if s.Struct {
+			proto = SV{}
+		}
+		m, err := morass.New(proto, "vrt", parent, s.Chunk, s.Concurrent)
 		if err != nil {
 			newErr = err
 			return
@@ -145,26 +176,49 @@ func (s Scenario) Mk() vrt.Run {
 		defer m.CleanUp()
 		m.AutoClear = s.AutoClear
 		base := 0
+		corrupt := func(v SV) bool { return v != sv(v.K) } // a struct element came back with another's fields
 		// one cycle; false when a call failed
 		run := func(ci, n int) bool {
 			for i := n; i > 0; i-- {
 				v := base + i
-				if do("Push", func() error { return m.Push(IV(v)) }) != nil {
+				if do("Push", func() error {
+					if s.Struct {
+						return m.Push(sv(v))
+					}
+					return m.Push(IV(v))
+				}) != nil {
 					return false
 				}
 				pushed[ci] = append(pushed[ci], v)
+			}
+			if s.Abandon && ci == 0 {
+				// the load is given up: no Finalise, no Pull; what was pushed must not come back later
+				pushed[ci] = nil
+				return true
 			}
 			if do("Finalise", func() error { return m.Finalise() }) != nil {
 				return false
 			}
 			for {
 				var v IV
-				err := do("Pull", func() error { return m.Pull(&v) })
+				var w SV
+				err := do("Pull", func() error {
+					if s.Struct {
+						return m.Pull(&w)
+					}
+					return m.Pull(&v)
+				})
 				if err == io.EOF {
 					return true
 				}
 				if err != nil {
 					return false
+				}
+				if s.Struct {
+					v = IV(w.K)
+					if corrupt(w) {
+						v = IV(-1000 - w.K) // shows as a wrong value
+					}
 				}
 				pulled[ci] = append(pulled[ci], int(v))
 				if len(pulled[ci]) > n+2 {
